@@ -5,6 +5,7 @@ CONSTANTS
   Roots <- AllRoots
   ShallowChildDict = FALSE
   SharedPath = FALSE
+  EmptyListPassThrough = FALSE
   Emit = TRUE
 INVARIANT CopyEqual
 INVARIANT Independence
